@@ -32,6 +32,8 @@ def run(ck, ctx):
     ck.rule("R13.9", "the compaction input is an oldest-first prefix of the candidate list: after candidates are sorted by id only "
                      "prefix-preserving adaptors (take / take_while) may narrow the list; a filter/skip behind the sort lets a newer "
                      "tombstone be compacted (and dropped) while an older value of its key stays behind in a skipped segment")
+    ck.rule("R13.10", "the tombstone TTL is the whole configured duration: the cutoff is `now - tombstone_ttl` with the TTL converted by "
+                      "Duration::as_millis/as_secs (never a sub-second component such as subsec_millis, which is 0 for whole seconds)")
     ck.nd("state equality for all layouts and interleavings")
     for cfg in ctx.configs:
         prog = ctx.prog(cfg)
@@ -39,6 +41,7 @@ def run(ck, ctx):
         ck.fn_count += len(prog.fns)
         _rules(ck, prog, cfg)
         _r139(ck, prog, cfg)
+        _r1310(ck, prog, cfg)
         from . import c12
         c12._r127(ck, prog, [f for f in prog.lib_fns() if f.file == "src/streaming/compaction.rs"], cfg, rid="R13.8", floor=1)
 
@@ -412,3 +415,22 @@ def _r139(ck, prog, cfg):
     ck.check(not bad and chain, "R13.9", "selection:prefix-of-sorted-candidates" + _tag(cfg),
              "the sorted candidate list is narrowed by %s: the selection is no longer an oldest-first prefix, so a newer segment can be "
              "compacted while an older one is skipped" % bad, sel.where(rets[0][1]["ln"]), detail="chain after sort: %s" % chain)
+
+
+def _r1310(ck, prog, cfg):
+    fn = prog.one("streaming::compaction::Compactor::<S, T>::compact::{closure#0}")
+    n = 0
+    subs = [(b, t) for b, t in fn.calls() if is_callee(t, r"Duration::subsec_(millis|micros|nanos)$")]
+    for b, t in subs:
+        r = src_of_operand(fn, t["args"][0], through_calls=TRANSPARENT)
+        if "tombstone_ttl" in r.fields or "config" in r.fields:
+            ck.bad("R13.10", "compact:ttl-subsecond-part" + _tag(cfg),
+                   "the tombstone TTL is read through %s: only the fraction below one second is used, so a TTL of whole seconds counts as zero and "
+                   "fresh tombstones are dropped while older values of their keys survive elsewhere" % callee(t).rsplit("::", 1)[-1], fn.where(t["ln"]))
+    whole = [(b, t) for b, t in fn.calls() if is_callee(t, r"Duration::as_(millis|secs|micros|secs_f64)$")]
+    for b, t in whole:
+        r = src_of_operand(fn, t["args"][0], through_calls=TRANSPARENT)
+        if "tombstone_ttl" in r.fields:
+            n += 1
+    ck.check(n >= 1, "R13.10", "compact:ttl-whole-duration" + _tag(cfg),
+             "the tombstone cutoff is not computed from Duration::as_millis/as_secs of config.tombstone_ttl", fn.where(), detail="as_millis(tombstone_ttl)")
